@@ -78,8 +78,9 @@ def run(ctx):
         ctx.violation("_combine_params", "model_mismatch", "binary64 instance of Model/Nix.v disagrees with _combine_params", {"case": terms[i]},
                       found_input=False, what="correspondence Model/Nix.v <-> _combine_params no longer holds")
     # ---- regressors ----
-    def regs(seed):
+    def regs(seed, centre=0.0):
         return [
+            ("NICKernelRegressor[mu_0=centre,weak prior]", lambda: NICKernelRegressor(mu_0=centre, kappa_0=1e-3, nu_0=2.5, sigma_sq_0=1.0, random_state=seed), "proper"),
             ("NICKernelRegressor", lambda: NICKernelRegressor(metric_dict={"gamma": 0.5}, random_state=seed), "proper"),
             ("NICKernelRegressor[improper]", lambda: NICKernelRegressor(kappa_0=0, nu_0=0, sigma_sq_0=0, random_state=seed), "improper"),
             ("NadarayaWatsonRegressor", lambda: NadarayaWatsonRegressor(random_state=seed), "nw"),
@@ -90,18 +91,28 @@ def run(ctx):
             ("SklearnRegressor[LinearRegression]", lambda: SklearnRegressor(LinearRegression(), random_state=seed), "plain"),
             ("SklearnRegressor[needs2]", lambda: SklearnRegressor(refusing(2), random_state=seed), "plain"),
         ]
-    for h in range(25 if ctx.is_quick else 300):
+    for h in range(60 if ctx.is_quick else 600):
         n = int(rng.integers(3, 9))
         X = rng.normal(size=(n, 2))
         y_true = np.round(rng.normal(size=n) * 2, 1)
+        scale = ["unit", "unit", "timestamps", "equal_large", "tiny"][(h // 4) % 5]
+        if scale == "timestamps":          # large offset, small spread (cancellation in one-pass variance formulas)
+            y_true = 1.7e9 + np.round(rng.normal(size=n) * 3)
+        elif scale == "equal_large":
+            y_true = np.full(n, 123456789.0)
+        elif scale == "tiny":
+            y_true = np.round(rng.normal(size=n), 2) * 1e-9
         nlab = [0, 1, 2, n][h % 4]
         y = np.full(n, np.nan)
         idx = rng.choice(n, size=nlab, replace=False)
         y[idx] = y_true[idx]
         Xq = rng.normal(size=(4, 2))
         seed = int(rng.integers(0, 50))
-        for name, mk, kind in regs(seed):
-            rc = {"regressor": name, "X": X.tolist(), "y": [None if np.isnan(v) else v for v in y], "Xq": Xq.tolist(), "seed": seed}
+        centre = float(np.mean(y[idx])) if nlab else 0.0
+        for name, mk, kind in regs(seed, centre):
+            if "GPR" in name and scale != "unit":
+                continue      # scikit-learn's GaussianProcessRegressor itself returns NaN for targets with a huge offset: third-party numerics, not the wrapper
+            rc = {"target_scale": scale, "regressor": name, "X": X.tolist(), "y": [None if np.isnan(v) else v for v in y], "Xq": Xq.tolist(), "seed": seed}
             try:
                 m = mk().fit(X, y)
                 mu = np.asarray(m.predict(Xq), dtype=float)
